@@ -12,7 +12,12 @@ package main
 //	          every (mesgNum, fieldNum) not listed is an unknown field (as factory.createUnknownField makes it);
 //	          "std" = the decoder's default, factory.StandardFactory() (such lines run with exp0: the model has the
 //	          standard factory's base types / array / bool / accumulate flags, regenerated, not its components)
-//	<op>      dec | decx (DecodeWithContext, live context) | decc (cancelled context) | pkh | pki | dis | nxt
+//	<op>      dec | decx (DecodeWithContext, live context) | decc (cancelled context)
+//	          | decx:<k> (DecodeWithContext whose context is cancelled WHILE the call runs: k ≥ 1 — by a listener, during the
+//	          call it receives for the k-th record, definition or data, decoded by this call (the line then registers a
+//	          counting message listener and message-definition listener besides the printing ones); k = 0 — at the first
+//	          Read of the call, all readers of the line then delivering one byte per Read so that every request of the
+//	          decoder reaches the reader; a k beyond the records of the call: never cancelled) | pkh | pki | dis | nxt
 //	          | ci (CheckIntegrity, then the documented reader.Seek(0, io.SeekStart)) | rst<k> (Reset onto a new
 //	          bytes.Reader over the k-th `r:` stream, k ≥ 1, same options)
 //
@@ -317,6 +322,57 @@ type dapiListener struct {
 func (l *dapiListener) OnMesg(m proto.Message)              { l.evs = append(l.evs, dapiMesg(&m)) }
 func (l *dapiListener) OnMesgDef(d proto.MessageDefinition) { l.evs = append(l.evs, dapiMesgDef(&d)) }
 
+// dapiCtl: what `decx:<k>` needs — listeners that count the records of the current call and cancel its context at the
+// k-th, and a hook run at the first Read of the call.
+type dapiCtl struct {
+	hidden   bool // the line has a decx:<k≥1>: counting listeners are registered
+	oneByte  bool // the line has a decx:0: readers deliver one byte per Read
+	count    int
+	cancelAt int
+	cancel   context.CancelFunc
+	onRead   func()
+}
+
+func (c *dapiCtl) tick() {
+	c.count++
+	if c.cancel != nil && c.count == c.cancelAt {
+		c.cancel()
+	}
+}
+func (c *dapiCtl) OnMesg(proto.Message)              { c.tick() }
+func (c *dapiCtl) OnMesgDef(proto.MessageDefinition) { c.tick() }
+
+type dapiSlowReader struct {
+	r   *bytes.Reader
+	ctl *dapiCtl
+}
+
+func (s *dapiSlowReader) Read(p []byte) (int, error) {
+	if f := s.ctl.onRead; f != nil {
+		s.ctl.onRead = nil
+		f()
+	}
+	if len(p) > 1 {
+		p = p[:1]
+	}
+	return s.r.Read(p)
+}
+
+func (c *dapiCtl) reader(r *bytes.Reader) io.Reader {
+	if c.oneByte {
+		return &dapiSlowReader{r: r, ctl: c}
+	}
+	return r
+}
+
+func dapiCtxOp(op string) (k int, ok bool) {
+	if !strings.HasPrefix(op, "decx:") {
+		return 0, false
+	}
+	k, err := strconv.Atoi(op[5:])
+	return k, err == nil && k >= 0 && k < 1<<30
+}
+
 type dapiLog struct{ n int }
 
 func (l *dapiLog) Write(p []byte) (int, error) { l.n += len(p); return len(p), nil }
@@ -357,7 +413,7 @@ func parseDapiOpts(s string) (dapiOpts, bool) {
 	return o, true
 }
 
-func (o dapiOpts) options(fac *dapiFactory, lis *dapiListener) []decoder.Option {
+func (o dapiOpts) options(fac *dapiFactory, lis *dapiListener, ctl *dapiCtl) []decoder.Option {
 	var opts []decoder.Option
 	if fac != nil {
 		opts = append(opts, decoder.WithFactory(fac))
@@ -379,6 +435,9 @@ func (o dapiOpts) options(fac *dapiFactory, lis *dapiListener) []decoder.Option 
 	}
 	if o.dl {
 		opts = append(opts, decoder.WithMesgDefListener(lis))
+	}
+	if ctl != nil && ctl.hidden {
+		opts = append(opts, decoder.WithMesgListener(ctl), decoder.WithMesgDefListener(ctl))
 	}
 	if o.lw {
 		opts = append(opts, decoder.WithLogWriter(&dapiLog{}))
@@ -437,6 +496,9 @@ func execDecApi(args []string) string {
 		switch op {
 		case "dec", "decx", "decc", "pkh", "pki", "dis", "nxt", "ci":
 		default:
+			if _, ok := dapiCtxOp(op); ok {
+				continue
+			}
 			k, err := strconv.Atoi(strings.TrimPrefix(op, "rst"))
 			if !strings.HasPrefix(op, "rst") || err != nil || k < 1 || k >= len(streams) {
 				return "bad-op"
@@ -455,12 +517,22 @@ func execDecApi(args []string) string {
 
 func runDecApi(o dapiOpts, fac *dapiFactory, ops []string, streams [][]byte, verbose bool) string {
 	lis := &dapiListener{}
+	ctl := &dapiCtl{}
+	for _, op := range ops {
+		if k, ok := dapiCtxOp(op); ok {
+			if k == 0 {
+				ctl.oneByte = true
+			} else {
+				ctl.hidden = true
+			}
+		}
+	}
 	rd := bytes.NewReader(streams[0])
-	dec := decoder.New(rd, o.options(fac, lis)...)
+	dec := decoder.New(ctl.reader(rd), o.options(fac, lis, ctl)...)
 	var out []string
 	for _, op := range ops {
 		lis.evs = lis.evs[:0]
-		tok, panicked := dapiOne(dec, &rd, op, o, fac, lis, streams, verbose)
+		tok, panicked := dapiOne(dec, &rd, op, o, fac, lis, ctl, streams, verbose)
 		if len(lis.evs) > 0 {
 			if verbose {
 				tok += "/e" + dapiDigest(lis.evs, true)
@@ -487,7 +559,7 @@ func dapiFit(fit *proto.FIT, err error, verbose bool) string {
 	return fmt.Sprintf("ok:%s.%d:%d:%s", dapiHdr(&fit.FileHeader), fit.CRC, len(fit.Messages), dapiDigest(items, verbose))
 }
 
-func dapiOne(dec *decoder.Decoder, rd **bytes.Reader, op string, o dapiOpts, fac *dapiFactory, lis *dapiListener,
+func dapiOne(dec *decoder.Decoder, rd **bytes.Reader, op string, o dapiOpts, fac *dapiFactory, lis *dapiListener, ctl *dapiCtl,
 	streams [][]byte, verbose bool) (tok string, panicked bool) {
 	defer func() {
 		if r := recover(); r != nil {
@@ -497,6 +569,19 @@ func dapiOne(dec *decoder.Decoder, rd **bytes.Reader, op string, o dapiOpts, fac
 			}
 		}
 	}()
+	if k, ok := dapiCtxOp(op); ok {
+		ctx, cancel := context.WithCancel(context.Background())
+		defer cancel()
+		ctl.count, ctl.cancelAt, ctl.cancel, ctl.onRead = 0, 0, nil, nil
+		if k == 0 {
+			ctl.onRead = cancel
+		} else {
+			ctl.cancelAt, ctl.cancel = k, cancel
+		}
+		defer func() { ctl.cancel, ctl.onRead = nil, nil }()
+		fit, err := dec.DecodeWithContext(ctx)
+		return dapiFit(fit, err, verbose), false
+	}
 	switch op {
 	case "dec":
 		fit, err := dec.Decode()
@@ -546,7 +631,7 @@ func dapiOne(dec *decoder.Decoder, rd **bytes.Reader, op string, o dapiOpts, fac
 	default: // rst<k>
 		k, _ := strconv.Atoi(op[3:])
 		*rd = bytes.NewReader(streams[k])
-		dec.Reset(*rd, o.options(fac, lis)...)
+		dec.Reset(ctl.reader(*rd), o.options(fac, lis, ctl)...)
 		return "ok", false
 	}
 }
@@ -688,6 +773,7 @@ type dapiBuilder struct {
 	live map[byte]*dapiLive
 	recs []byte
 	ts   uint32
+	nrec int // records appended by define / data
 }
 
 func (b *dapiBuilder) randFieldDef(mesgNum uint16) dapiFD {
@@ -772,6 +858,7 @@ func (b *dapiBuilder) define(local byte, mesgNum uint16, withDevs bool) {
 	}
 	b.live[local] = l
 	b.recs = append(b.recs, dapiDefRec(local, l.arch, mesgNum, l.fields, l.devs)...)
+	b.nrec++
 }
 
 func (b *dapiBuilder) payloadFor(l *dapiLive) []byte {
@@ -850,6 +937,7 @@ func (b *dapiBuilder) data(local byte, compressed bool) {
 			hdr |= 0x10 // reserved bit 4
 		}
 	}
+	b.nrec++
 	b.recs = append(b.recs, hdr)
 	if l != nil {
 		b.recs = append(b.recs, b.payloadFor(l)...)
@@ -862,6 +950,12 @@ func (b *dapiBuilder) data(local byte, compressed bool) {
 // no definition (visible leak of definitions), 2 compressed timestamp before any timestamp, 3 developer fields
 // without description first.
 func dapiRandRecords(rng *Rng, kind int, fileId bool) []byte {
+	recs, _ := dapiRandRecordsN(rng, kind, fileId)
+	return recs
+}
+
+// dapiRandRecordsN also returns the number of records built (kinds 1 and 2 splice raw bytes: the count is then a guide only)
+func dapiRandRecordsN(rng *Rng, kind int, fileId bool) ([]byte, int) {
 	b := &dapiBuilder{rng: rng, live: map[byte]*dapiLive{}, ts: 0x30000000 + uint32(rng.Intn(1000))}
 	switch kind {
 	case 1:
@@ -895,7 +989,16 @@ func dapiRandRecords(rng *Rng, kind int, fileId bool) []byte {
 			b.data(local, rng.Intn(6) == 0)
 		}
 	}
-	return b.recs
+	return b.recs, b.nrec
+}
+
+func dapiRandSeqN(rng *Rng, kind int, fileId bool) ([]byte, int) {
+	recs, n := dapiRandRecordsN(rng, kind, fileId)
+	hs := 14
+	if rng.Intn(5) == 0 {
+		hs = 12
+	}
+	return dapiSeq(hs, rng.Intn(4) != 0, recs), n
 }
 
 func dapiRandSeq(rng *Rng, kind int, fileId bool) []byte {
@@ -935,6 +1038,9 @@ func dapiRandOps(rng *Rng, maxLen int, nreaders int) string {
 			ops[i] = "dec"
 		case r < 7:
 			ops[i] = "decx"
+			if rng.Intn(3) != 0 {
+				ops[i] = fmt.Sprintf("decx:%d", rng.Intn(14))
+			}
 		case r < 8 && rng.Intn(3) == 0:
 			ops[i] = "decc"
 		case r < 10:
@@ -1036,6 +1142,48 @@ func genDecApi(emit func(string), tier string, rng *Rng) {
 		}
 		emit(dapiLine("decapi", dapiOptString(rng), dapiFacString(dapiRandFactory(rng)), dapiRandOps(rng, 8, nr), streams))
 		count("built-chain")
+	}
+	// 3b. context cancelled while DecodeWithContext runs: EVERY cancellation point k = 0 .. (records of the sequence) + 2 on small
+	// built chains — in particular k = the last record: the cancellation is seen by the check after the loop — followed by the
+	// entry points that must then return the context's error (sticky) and not a success; on the first and on the second
+	// sequence of a chain, after peeks, before a reset
+	follow := []string{"dec", "nxt,dec", "dis", "pki", "pkh,dec", "decx,dec", "dec,dec", "ci,dec", "rst1,dec", "decc,dec", "decx:1,dec"}
+	for c := 0; c < 12*scale; c++ {
+		s1, n1 := dapiRandSeqN(rng, 0, rng.Intn(3) != 0)
+		s2, n2 := dapiRandSeqN(rng, 0, rng.Intn(3) != 0)
+		chain := append(append([]byte(nil), s1...), s2...)
+		other := dapiChain(rng, 1)
+		opt, fac := dapiOptString(rng), dapiFacString(dapiRandFactory(rng))
+		for k := 0; k <= n1+2; k++ {
+			for _, f := range []string{follow[rng.Intn(len(follow))], follow[rng.Intn(len(follow))], "dec"} {
+				emit(dapiLine("decapi", opt, fac, fmt.Sprintf("decx:%d,%s", k, f), [][]byte{chain, other}))
+				count("ctx-cancel-every-k")
+			}
+		}
+		for k := 0; k <= n2+2; k++ {
+			pre := []string{"dec", "dis", "decx:99", "pki,dec"}[rng.Intn(4)]
+			emit(dapiLine("decapi", opt, fac, fmt.Sprintf("%s,decx:%d,%s", pre, k, follow[rng.Intn(len(follow))]), [][]byte{chain, other}))
+			count("ctx-cancel-every-k")
+		}
+		// at the boundary: the last record of the sequence, one before, one after — alone, after a header peek, after a
+		// file-id peek (which has consumed some of the records), after Next
+		for _, k := range []int{n1 - 1, n1, n1 + 1} {
+			if k < 0 {
+				continue
+			}
+			for _, f := range follow {
+				emit(dapiLine("decapi", opt, fac, fmt.Sprintf("decx:%d,%s", k, f), [][]byte{chain, other}))
+				emit(dapiLine("decapi", opt, fac, fmt.Sprintf("pkh,decx:%d,%s", k, f), [][]byte{chain, other}))
+				count("ctx-cancel-last-record")
+			}
+			for j := 0; j <= k; j++ {
+				emit(dapiLine("decapi", opt, fac, fmt.Sprintf("pki,decx:%d,dec,nxt,dec", j), [][]byte{chain, other}))
+				count("ctx-cancel-after-peek")
+			}
+			emit(dapiLine("decapi", opt, fac, fmt.Sprintf("nxt,decx:%d,nxt,dec", k), [][]byte{chain, other}))
+			emit(dapiLine("decapi", opt, fac, fmt.Sprintf("dec,nxt,decx:0,dec"), [][]byte{chain, other}))
+			count("ctx-cancel-last-record")
+		}
 	}
 	// 4. definition surgery: base type byte × size around the type's size, known and unknown field, both byte orders
 	for bt := 0; bt < 256; bt++ {
@@ -1182,7 +1330,7 @@ func genDecHist(emit func(string), tier string, rng *Rng) {
 	if tier == "thorough" {
 		scale = 20
 	}
-	consume := []string{"dec", "decx", "dis", "pkh,dec", "pki,dec", "pki,dis", "pkh,dis", "nxt,dec", "nxt,pki,dis", "pki,pki,dec", "pkh,pki,dis"}
+	consume := []string{"dec", "decx", "dis", "pkh,dec", "pki,dec", "pki,dis", "pkh,dis", "nxt,dec", "nxt,pki,dis", "pki,pki,dec", "pkh,pki,dis", "decx:99", "pki,decx:99"}
 	for i := 0; i < 6000*scale; i++ {
 		opt, fac := dapiOptString(rng), dapiFacString(dapiRandFactory(rng))
 		np := rng.Intn(3)
@@ -1220,7 +1368,12 @@ func genDecHist(emit func(string), tier string, rng *Rng) {
 			streams = [][]byte{bad, s}
 			ops = []string{[]string{"dec", "pki", "pki,dec", "dis"}[rng.Intn(4)], "rst1"}
 		}
-		ops = append(ops, []string{"dec", "decx", "pki,dec", "pkh,dec", "nxt,dec", "dec,dec"}[rng.Intn(6)])
+		last := []string{"dec", "decx", "pki,dec", "pkh,dec", "nxt,dec", "dec,dec"}[rng.Intn(6)]
+		if rng.Intn(6) == 0 { // S decoded under a context that is cancelled on the way (or too late)
+			last = []string{"decx:%d", "pki,decx:%d", "pkh,decx:%d", "decx:%d,dec", "nxt,decx:%d"}[rng.Intn(5)]
+			last = fmt.Sprintf(last, rng.Intn(12))
+		}
+		ops = append(ops, last)
 		emit(dapiLine("dechist", opt, fac, strings.Join(ops, ","), streams))
 		count(fmt.Sprintf("S-kind-%d", kind))
 	}
